@@ -5,6 +5,7 @@ import Flowjaxv.Proofs.Flows
 import Flowjaxv.Proofs.CtorsGen
 import Flowjaxv.Proofs.JaxTransforms
 import Flowjaxv.Proofs.MergeGen
+import Flowjaxv.Proofs.MergeGenWF
 /-!
 # C08 — combinators mean what their definitions say, for every shape and axis
 
@@ -1072,6 +1073,31 @@ theorem gen_chain_instance :
     Inst.getSummary Inst.flat4 (.slice ⟨some 2, some 1, none⟩) = .error (.py .indexError) ∧
     Inst.getSummary Inst.flat4 .other = .error (.py .typeError) :=
   ⟨by decide, by decide, by decide, by decide, by decide, by decide, by decide, by decide, by decide, by decide, by decide, by decide⟩
+
+/-- `Chain(bs)` through the regenerated constructor returns `c` iff: at least one member, every member declares `c.shape`, and
+`merge_cond_shapes` of the members' condition shapes is `c.cond_shape` (C13's `chainCtor`) -/
+theorem gen_chain_ctor_ok_iff {X C α : Type} (bs : List (B X C α)) (c : ChainObj X C α) :
+    Mw.mkChain bs = .ok c ↔
+      c.bijections = bs ∧ (∃ rest, bs.map B.shape = c.shape :: rest ∧ ∀ t ∈ bs.map B.shape, t = c.shape) ∧
+      ArgCheck.mergeCondShapes (bs.map B.cond_shape) = .ok c.cond_shape := MergeGen.mkChain_ok_iff bs c
+
+/-- **when the generated `merge_chains` returns**: iff the full flattening is non-empty, its members declare one shape and
+compatible condition shapes -/
+theorem gen_merge_chains_accepts_iff {X C α : Type} (c : ChainObj X C α) :
+    (∃ c', Chain.mergeChains c = .ok c') ↔
+      (∃ s rest, (B.flatL c.bijections).map B.shape = s :: rest ∧ ∀ t ∈ (B.flatL c.bijections).map B.shape, t = s) ∧
+      ArgCheck.CondCompatible ((B.flatL c.bijections).map B.cond_shape) := MergeGen.mergeChains_accepts_iff c
+
+/-- **`merge_chains` of every chain built by the constructors returns** (every nesting depth: each inner `Chain` carries the
+fields the regenerated `Chain.__init__` computes from its members), and the flat chain declares the same `shape` and
+`cond_shape` — `merge_cond_shapes` is associative under flattening -/
+theorem gen_merge_chains_returns {X C α : Type} (c : ChainObj X C α) (h : MergeGen.WF c.toB) :
+    ∃ c', Chain.mergeChains c = .ok c' ∧ c'.shape = c.shape ∧ c'.cond_shape = c.cond_shape := MergeGen.mergeChains_wf c h
+
+/-- the constructor's results are well-formed, so `merge_chains` can be applied to anything `Chain(...)` returned on
+well-formed members (non-vacuity of `WF`: `C03.gen_merge_transforms_returns_instance`) -/
+theorem gen_chain_ctor_wf {X C α : Type} {bs : List (B X C α)} {c : ChainObj X C α} (h : Mw.mkChain bs = .ok c)
+    (hbs : MergeGen.WFL bs) : MergeGen.WF c.toB := MergeGen.WF_of_mkChain h hbs
 
 end MergeGen
 
